@@ -1,5 +1,6 @@
 """An async vector pettingzoo environment"""
 
+import ctypes
 import multiprocessing as mp
 import pickle
 import sys
@@ -716,7 +717,11 @@ def _create_memory_array(
     :param context: Multiprocessing context
     :type context: Any
     """
-    return context.Array(obs_space.dtype.char, num_envs * int(np.prod(obs_space.shape)))
+    typecode = obs_space.dtype.char
+    if typecode == "?":
+        # numpy's bool code is not a ctypes type code
+        typecode = ctypes.c_bool
+    return context.Array(typecode, num_envs * int(np.prod(obs_space.shape)))
 
 
 def create_shared_memory(
